@@ -175,7 +175,7 @@ def real_history(args, scratch):
                 keydoc_steps[0] += 1
                 ws.fault("acquire", {"kind": "mangled-key-document", "how": ["wrong-type", "missing-member", "truncated", "trailing", "extra-member"][kd % 5]})
                 ws.fault("acquire", {"kind": "mangled-key-document", "how": ["non-hex-key", "odd-length-key", "status-201", "status-202", "status-206", "status-203"][kd % 6]})
-                ws.fault("acquire", {"kind": "mangled-key-document", "how": ["odd-length-key", "non-hex-key"][kd % 2]})
+                ws.fault("acquire", {"kind": "mangled-key-document", "how": ["odd-length-key", "non-hex-key", "empty-guid", "guid-with-path"][kd % 4]})
                 ws.latched = None
                 wait(lambda: ws.latched is not None, 15)
                 latched_sync()
@@ -410,7 +410,7 @@ STEPS = ["traffic", "provision", "fault-status", "rotate", "fault-acquire", "fau
 
 
 def run(tier, rep):
-    rep.coverage["rule"] = ("taint search: secrets = every key the mock host latched (attestation accepted) and every key it delivered inside a malformed key document (wrong member type, missing/extra member, truncated, trailing bytes, key value that is not hex / of odd length, a well-formed document under status 201/202/203/206); needles = the 64 hex digits in either case, every 16-digit window, the raw 32 bytes and halves, base64; "
+    rep.coverage["rule"] = ("taint search: secrets = every key the mock host latched (attestation accepted) and every key it delivered inside a malformed key document (wrong member type, missing/extra member, truncated, trailing bytes, key value that is not hex / of odd length, a well-formed document under status 201/202/203/206, a key id that is empty or contains a path); needles = the 64 hex digits in either case, every 16-digit window, the raw 32 bytes and halves, base64; "
                             "haystack = all files under the log/event/status/provision locations and the whole scratch root, stdout, stderr, the captured /dev/console, every byte returned to local clients "
                             "(proxied responses, /provision answers, refusals), telemetry bodies at the mock and upstream request bytes; only files inside the key directory may contain a needle. histories: real binary "
                             "(latch, traffic, /provision queries, status/acquire/attest faults, rotation, disable/enable, restart) and a shim-hosted pipeline with logger/reader/status task on short intervals. plus "
